@@ -39,6 +39,9 @@ TARGETED = [
     "x = 'abc' \"def", "x = b'é'", "x = '\\N{bogus}'", "x = 'a' b'b'", "x = b'\\xzz'", "x = u'\\u12'", "x = f'{a'", "x = f'{}'", "x = f'{a!z}'", "x = f'{a!}'", "x = f'{a:{b}'", "x = f'{=}'", "x = f'{a b}'", "x = f'{a!r:}}'",
     "y = f'''{x} ab\n cd \\N{foo}'''", "z = f'''a\n\\x4'''", "w = f\"\"\"t\n\n  \\N{nope} {u}\"\"\"", "v = (f'{a}'\n     '\\N{bad}')", "u = ('a'\n 'b' b'c')", "t = '''m\nn''' '\\N{no}'",
     "def f():\n'''doc\nstring'''\n", "if a:\n\"\"\"x\ny\"\"\"", "class A:\n'''d\nd2'''\npass", "for i in j:\n(1,\n 2)", "while a:\nf'''{b}\nc'''", "with a:\nx = [\n1]", "try:\n'''s\nt'''\nfinally: pass",
+    # literals that do not mix, in either order and over several lines (the report names two pieces of the run)
+    "x = b'a' f'{x}'", "x = f'{x}' b'a'", "x = (b'a'\n     f'{x}')", "x = (f'{x}'\n  b'a')", "x = 'a' f'{x}' b'a' 'c'", "x = b'a' 'c' f'{y}'", "x = (b'''a\nb''' f'{y}'\n 'z')", "x = f'{a}' f'{b}' b''", "y = b'' f''", "f(b'a' f'b', 1)",
+    "z = (b'a'\n\n     # c\n     f'{x}'\n     'q')", "g(1,\n  b'1' b'2'\n  f'3')", "u = b'a' 'b'", "u = ('a'\n   b'b'\n   'c')",
     "type X = ", "type X[T = 1", "def f[T(): pass", "class A[]: pass", "type = = 1",
     "  x = 1", "if a:\n  b\n c", "if a:\n    b\n  c\n", "def f():\n\tx\n        y\n   z", "x = 1\n  y = 2", "if a:\nb",
     "f!(a, (b]", "f!((]", "f!(a, [1,\n   2)", "g!((x,\n y]", "h!(a,\n b,\n {c)", "r = k!([\n\n 1}\n)", "$(echo @(a,\n b]))", "x = [1,\n 2)", "x = {1:\n 2]", "f(a,\n b]", "$(ls", "$[ls )", "![ls", "${a", "$(echo @(a b))", "@(a)", "x = $", "x = $ a", "with! a\n  b", "with a as $: pass", "a && = b", "a || ", "p'a' = 1", "x = `a", "echo 'a", "x??? ", "$(ls) = 1", "for $(a) in b: pass", "del $X?",
@@ -122,7 +125,8 @@ def check_file_entry(rec, case, src):
     if o.kind != "error":
         return
     rec.count("file-entry-errors")
-    probs = oracle(src, o.exc)
+    # (a U+FEFF at the very start of a UTF-8 file is its signature, not text: positions and quoted lines count from after it)
+    probs = oracle(src[1:] if src.startswith("\ufeff") else src, o.exc)
     if probs:
         e = o.exc
         rec.fail(dict(case, entry="file"), f"{'+'.join(probs)}@{o.site}:file-entry", {"msg": str(e.msg)[:120], "lineno": e.lineno, "offset": e.offset, "end": [getattr(e, "end_lineno", None), getattr(e, "end_offset", None)], "text": (e.text if isinstance(e.text, str) else repr(e.text))[:120], "filename": e.filename, "class": type(e).__name__})
